@@ -66,6 +66,10 @@ def member_text(rng, m, ident):
             inner += " : trailing words"
         comment = "~ " + inner + " ~" + rng.choice(["\n", "\n", "\n\n", " "])
     lead = rng.choice(["", "\n", "  "])
+    # docs/comments.md: outer comments stand "before and/or after the csvpath"; the identity may sit in the one below it
+    # (a separate draw: the streams of the other choices stay as they were)
+    if comment and random.Random(f"{m}/{ident}/{len(match)}").random() < 0.25:
+        return f"{lead}$file{m}.csv[{scan}]{match}" + rng.choice([" ", "\n"]) + comment.rstrip() + rng.choice(["", "\n"])
     return f"{lead}{comment}$file{m}.csv[{scan}]{match}" + rng.choice(["", "\n"])
 
 
